@@ -20,6 +20,11 @@ CHECKS = {
             "Every fault plan is a behaviour of the TLA+ specification with fault actions (ReadFail, import-syntax, body-syntax, foreign) enabled; TLC checks FailureFails/CulpritNamed/NoPartialModel/termination on the design and produces the plans; the harness delivers each fault at the scheduled step on the real code and TLC validates the recorded trace and the returned (module, error).",
             "Same trusted base as C05; fault kinds limited to read error, truncated/invalid body, broken import line, unrecognisable foreign file.",
             "DESIGN.md §6 C06"),
+    "C18": ("model_checking",
+            "TLA+ spec Chroot.tla (segment stack machine, Allowed, per-operation call sets) model-checked by TLC; TLC enumerates every (root, name) of the bounded space; every real ChrootFs operation and every import compile through loader is recorded under a recording afero.Fs and judged by TLC (ChrootTrace.tla)",
+            "Exhaustive within the stated alphabet and length: TLC proves on the design that resolution is canonical/idempotent, '.'/'' neutral, '..' undoes a push, and that the call sets stay under the root; it then enumerates every name (<=4 segments quick, <=5 thorough, 6-symbol alphabet, relative and absolute, 4 roots) and the harness records every call that reaches the underlying file system for all 12 wrapper operations (Rename in both argument positions against 5 partner names) and for compiles whose import statement spells the name; TLC checks Confined / Works (spelling-independent resolution) / Refused for every event.",
+            "POSIX paths only; the recording afero.Fs is assumed to see all file access (true for everything that goes through the afero.Fs handed to loader).",
+            "DESIGN.md §6 C18"),
 }
 
 PENDING = {}
